@@ -221,7 +221,7 @@ def compare_pf(ctx, a1, b1, md, ms, idr, isp, fail):
 def pick_variants(rng, n, quick):
     ks = {1, n - 1, rng.randrange(n), rng.randrange(n), n // 2}
     if not quick:
-        if n <= 24:
+        if n <= 16:
             ks = set(range(n))
         else:
             ks |= {rng.randrange(n) for _ in range(8)} | {0, n // 4}
@@ -344,12 +344,12 @@ def run(ctx, fixed=None):
     rng = ctx.rng
     quick = ctx.quick()
     # ---------------- stream 1: 1D spectra with given moments
-    n1 = ctx.n(90, 2400)
+    n1 = ctx.n(90, 1400)
     b1s = [build_1d_case(rng, nbands=3, maxpts=6 if quick else 8, nfmax=20 if quick else 30) for _ in range(n1)]
     if fixed is not None:
         b1s = fixed[0]
     # ---------------- stream 2: 2D spectra on uniform grids with rotated / mirrored variants
-    n2 = ctx.n(18, 300)
+    n2 = ctx.n(18, 130)
     b2s = []
     for _ in range(n2):
         g_n = rng.choice([8, 8, 12, 16, 24, 36, 36, 48, 72, 144]) if rng.random() < 0.75 else rng.randint(8, 144)
@@ -360,7 +360,7 @@ def run(ctx, fixed=None):
         bb["case"]["extra"] = False
         b2s.append(bb)
     # ---------------- stream 3: 2D spectra on any grid (directions of non-uniform grids: definitions only)
-    n3 = ctx.n(20, 500)
+    n3 = ctx.n(20, 300)
     b3s = [B.build_2d_case(rng, nbands=3, maxpts=4, nfmax=16 if quick else 24) for _ in range(n3)]
     if fixed is not None:
         b2s, b3s = fixed[1], []
@@ -534,7 +534,7 @@ def replay(ctx, obj):
         print("replay: unknown input kind %r" % op)
 
 
-READY = False
+READY = True
 LEVEL_TEXT = ("Theorems (Coq, all sizes): atan2 (built from atan by quadrant) is the polar angle in (-pi, pi]; mean/peak/per-frequency direction "
               "and spread are atan2(B,A) and sqrt(2-2 sqrt(A^2+B^2)) in degrees of the energy-weighted band averages (peak variants: moments at "
               "the peak index); directions lie in (-180,180] for a non-zero vector, spreads in [0, sqrt2*180/pi] (< 81.03, from Machin's formula and the alternating series of atan) when "
@@ -543,7 +543,7 @@ LEVEL_TEXT = ("Theorems (Coq, all sizes): atan2 (built from atan by quadrant) is
               "means by alpha = k*360/N and (a2,b2) by 2 alpha, and shifts every direction (per frequency, peak, band mean) by alpha in vector form "
               "(equal cosine and sine, shown equivalent to congruence modulo 360); the mirror image keeps a1,a2 and negates b1,b2 and every direction. "
               "The model is tied to spectrum.py by the extracted-model correspondence on 1D spectra with given moments and on 2D spectra, and the "
-              "rotation / mirror relations are re-evaluated on the implementation for sampled (quick) or all (thorough, N <= 24) k.")
+              "rotation / mirror relations are re-evaluated on the implementation for sampled (quick) or all (thorough, N <= 16; 13 sampled k above) k.")
 LEVEL_NOTE = ("Direction statements carry the premise that the moment vector is not (0,0) (atan2(0,0)=0 does not rotate). Rotation/mirror theorems "
               "are about 2D spectra (1D spectra have no direction axis to rotate). Float rounding, numpy.arctan2 and xarray's vectorised "
               "indexing at the peak are validated by execution only.")
